@@ -13,6 +13,7 @@ it is blocked) and ends with exit status -9.  Queue.close() is per process, as i
 multiprocessing (closing the parent's end does not stop children).
 """
 import gc
+import queue as _queue
 import random
 import threading
 
@@ -177,11 +178,32 @@ class CoopQueue:
         if self.ctx.sched.current.tid in self.closed_by:
             raise ValueError(f"Queue {self!r} is closed")
 
+    def _may_time_out(self, a, kw, blocked):
+        """block=False, or a timeout: when the operation cannot proceed at once the scheduler decides whether the
+        consumer/producer is slow enough for it to give up (always a possible schedule: callbacks may take any time)."""
+        block = a[0] if a else kw.get("block", True)
+        timeout = a[1] if len(a) > 1 else kw.get("timeout")
+        if block and timeout is None:
+            return False
+        s = self.ctx.sched
+        if not block:
+            return True
+        if s.rnd.random() < 0.5:
+            return False
+        for _ in range(2):  # the others get a little time first
+            s.switch()
+            if not blocked():
+                return False
+        return True
+
     def put(self, obj, *a, **kw):
         self._check_open()
         s = self.ctx.sched
         s.switch()
         if self.maxsize and len(self.buf) >= self.maxsize:
+            if self._may_time_out(a, kw, lambda: len(self.buf) >= self.maxsize):
+                self.ctx.timeouts += 1
+                raise _queue.Full()
             s.block_until(lambda: len(self.buf) < self.maxsize)
         self._check_open()
         obj = pickle.loads(pickle.dumps(obj))
@@ -196,6 +218,9 @@ class CoopQueue:
         s = self.ctx.sched
         s.switch()
         if not self.buf:
+            if self._may_time_out(a, kw, lambda: not self.buf):
+                self.ctx.timeouts += 1
+                raise _queue.Empty()
             s.block_until(lambda: bool(self.buf))
         self._check_open()
         obj = self.buf.pop(0)
@@ -206,6 +231,21 @@ class CoopQueue:
                 self.ctx.delivered.append((t.worker_id, len(self.ctx.delivered_objs)))
                 self.ctx.delivered_objs.append(obj)
         return obj
+
+    def put_nowait(self, obj):
+        return self.put(obj, False)
+
+    def get_nowait(self):
+        return self.get(False)
+
+    def empty(self):
+        return not self.buf
+
+    def full(self):
+        return bool(self.maxsize) and len(self.buf) >= self.maxsize
+
+    def qsize(self):
+        return len(self.buf)
 
     def close(self):
         self.closed_by.add(self.ctx.sched.current.tid)
@@ -294,6 +334,7 @@ class CoopContext:
         self.queues = []
         self.processes = []
         self.polls = 0
+        self.timeouts = 0
         self.max_polls = 3000
 
     def Queue(self, maxsize=0):
